@@ -5,6 +5,7 @@ import (
 	"flag"
 	"fmt"
 	"os"
+	"strings"
 	"time"
 
 	"symx/explore"
@@ -38,6 +39,7 @@ func cmdHarness(args []string) {
 	solver := fs.String("solver", "z3", "")
 	params := fs.String("params", "{}", "")
 	maxPaths := fs.Int("maxpaths", 0, "")
+	knownFlag := fs.String("known", "", "comma-separated open finding ids")
 	fs.Parse(args)
 	t0 := time.Now()
 	p, err := explore.Load(*repo, *hdir, []string{*pkg})
@@ -47,6 +49,11 @@ func cmdHarness(args []string) {
 	}
 	fmt.Fprintf(os.Stderr, "loaded in %v\n", time.Since(t0))
 	e := &explore.Explorer{P: p, Workers: *workers, Timeout: 10000, Verbose: *verbose, Known: map[string]bool{}}
+	for _, k := range strings.Split(*knownFlag, ",") {
+		if k != "" {
+			e.Known[k] = true
+		}
+	}
 	spec := explore.HarnessSpec{Name: *fn, Solver: *solver, MaxPaths: *maxPaths, Params: map[string]int{}}
 	json.Unmarshal([]byte(*params), &spec.Params)
 	st, err := e.Run(spec)
